@@ -440,7 +440,7 @@ pub fn h_c04_cell_input() {
 }
 
 /// a failed block move at the end of the grid on a sheet that holds cells: nothing may be lost half way
-/// (two number cells in the last rows / columns of the grid; block of <=2 lines, offset within +-2)
+/// (two number cells and one hidden line in the last rows / columns of the grid; block of <=2 lines, offset within +-2)
 pub fn h_c04_move_lines_with_cells() {
     let rows = any_bool();
     let last = if rows { LAST_ROW } else { LAST_COLUMN };
@@ -461,10 +461,14 @@ pub fn h_c04_move_lines_with_cells() {
         r1.insert(q, Cell::NumberCell { v: 2.5, s: 0 });
         ws.sheet_data.insert(2, r1);
     }
+    // one hidden line near the end: the UserModel widens the offset by the hidden lines it jumps over
+    let h = any_i32_in(last - 3, last);
+    if rows { ws.rows.push(Row { r: h, height: 15.0, custom_format: false, custom_height: false, s: 0, hidden: true }); }
+    else { ws.cols.push(Col { min: h, max: h, width: 10.0, custom_width: false, style: None, hidden: true }); }
     let mut wb = workbook_with_cells(vec![]);
     wb.worksheets = vec![ws];
     let mut um = user_model_paused(wb);
-    let (line, count, delta) = (any_i32_in(last - 3, last + 1), any_i32_in(1, 2), any_i32_in(-2, 2));
+    let (line, count, delta) = (any_i32_in(last - 4, last + 1), any_i32_in(1, 2), any_i32_in(-2, 2));
     let before = um.model.workbook.clone();
     let (nu, nr, nq) = (um.history.undo_stack.len(), um.history.redo_stack.len(), um.send_queue.len());
     let res = if rows { um.move_rows_action(0, line, count, delta) } else { um.move_columns_action(0, line, count, delta) };
